@@ -107,7 +107,7 @@ def build_model():
         od = os.path.join(BUILD, "ocaml")
         os.makedirs(od, exist_ok=True)
         srcs = [os.path.join(COQ, "Extract", "model.mli"), os.path.join(COQ, "Extract", "model.ml"),
-                os.path.join(VERIF, "ocaml", "wire.ml"), os.path.join(VERIF, "ocaml", "zenc.ml"), os.path.join(VERIF, "ocaml", "drv.ml")]
+                os.path.join(VERIF, "ocaml", "wire.ml"), os.path.join(VERIF, "ocaml", "zenc.ml"), os.path.join(VERIF, "ocaml", "args.ml"), os.path.join(VERIF, "ocaml", "drv.ml")]
         h = hashlib.sha256()
         for s in srcs:
             h.update(open(s, "rb").read())
@@ -117,7 +117,7 @@ def build_model():
         for s in srcs:
             shutil.copy(s, od)
         rc, o2 = sh(["ocamlfind", "ocamlopt", "-O3", "-w", "-a", "-package", "str", "-linkpkg",
-                     "model.mli", "model.ml", "wire.ml", "zenc.ml", "drv.ml", "-o", "zvm"], cwd=od, timeout=900)
+                     "model.mli", "model.ml", "wire.ml", "zenc.ml", "args.ml", "drv.ml", "-o", "zvm"], cwd=od, timeout=900)
         if rc != 0:
             return False, out + o2
         open(stamp, "w").write(h.hexdigest())
@@ -289,6 +289,9 @@ class Run:
         wall = time.time() - self.t0
         rdir = os.path.join(BUILD, "replay", self.pid)
         os.makedirs(rdir, exist_ok=True)
+        for old in os.listdir(rdir):
+            if old.startswith(f"{self.tier}-{self.seed}-"):
+                os.remove(os.path.join(rdir, old))
         lines = []
         # report at most 3 violations per (kind, stream), 30 in all
         seen = collections.Counter()
@@ -299,6 +302,7 @@ class Run:
                 chosen.append(v)
             seen[key] += 1
         self.extra["violations_by_stream"] = {f"{k[0]}/{k[1]}": n for k, n in seen.items()}
+        chosen.sort(key=lambda v: (not v[2],))      # concrete failing inputs first
         for i, (kind, detail, found) in enumerate(chosen):
             path = os.path.join(rdir, f"{self.tier}-{self.seed}-{i}.json")
             json.dump({"property": self.pid, "kind": kind, "seed": self.seed, "tier": self.tier,
